@@ -210,6 +210,12 @@ func genErrSpec(r *rand.Rand, depth int) string {
 			nodes = append(nodes, "W"+hxs("")+":"+hxs(" ("+genText(r)+")"))
 		}
 	}
+	// some decorations are applied and discarded (see parseErrSpec): they must not show
+	for i := range nodes {
+		if r.Intn(6) == 0 {
+			nodes[i] = "x" + nodes[i]
+		}
+	}
 	nodes = append(nodes, "B"+hxs(genText(r)))
 	return strings.Join(nodes, ".")
 }
